@@ -43,6 +43,10 @@ func main() {
 				continue
 			}
 			switch ws[0] {
+			case "fsess":
+				if section == "" || section == "interp" {
+					replayFileSession(o, ws)
+				}
 			case "jsonv":
 				if (section == "" || section == "interp") && len(ws) >= 6 {
 					pi, _ := strconv.Atoi(ws[4])
@@ -104,6 +108,11 @@ func main() {
 		}
 		genNested(o, r, repo, nNest, th)
 		genBigV(o, r, nBig)
+		nSess := 30
+		if th {
+			nSess = 300
+		}
+		genFileSessions(o, r, nSess)
 		genNumBoundaries(o, r)
 		genDeepJSON(o, r, th)
 		genJSON(o, r, th)
